@@ -106,6 +106,10 @@ class SizeConstraint(Constraint):
             self.size_max is not None
         ), "Cannot assert the end of a constraint before having initialized it."
 
+        if self.is_obsolete:
+            # already finished: asserted before, or overrun (reported and skipped to its end)
+            return
+
         # finalize self and remove it from constraint list
         self.is_obsolete = True
 
